@@ -143,6 +143,11 @@ impl BRC20ProgEngine {
     pub fn mine_blocks(&self, mut block_count: u64, timestamp: u64) -> Result<(), Box<dyn Error>> {
         self.require_no_waiting_txes()?;
 
+        if block_count == 0 {
+            // Nothing to mine (and no genesis block to take off the count below)
+            return Ok(());
+        }
+
         let mut block_number = self.get_next_block_height()?;
 
         if self.get_block_by_number(0, false)?.is_none() {
